@@ -81,31 +81,34 @@ func c15FunnelRule(c *Ctx, rule string) {
 			if !ok {
 				continue
 			}
-			n++
-			st := q.StateAt(ret)
-			v := ret.Results[0]
-			key := fmt.Sprintf("%s:return#%d", e.name, n)
-			if v == ssa.Value(param) {
-				ok1, cex := q.Holds(st, pa.AtomF(blank))
-				R.Check(ok1, rule, key, "(*Policy)."+e.name+": return of the parameter itself", c.P.Pos(ret.Pos()), "only for blank input", "the input is returned unsanitised for non-blank input: ["+cex+"]")
-				continue
-			}
-			// conv(sanitizeWithBuff(p, iface(reader(param))))
-			okF := false
-			why := "returns " + stripIDs(A.Sym.Of(v))
-			if cv := isCallTo(v, e.conv); cv != nil {
-				if sw, ok := cv.Common().Args[0].(*ssa.Call); ok && sw.Common().StaticCallee() == swb {
-					arg := sw.Common().Args[1]
-					if mi, ok := arg.(*ssa.MakeInterface); ok {
-						arg = mi.X
-					}
-					if rd := isCallTo(arg, e.reader); rd != nil && rd.Common().Args[0] == ssa.Value(param) && sw.Common().Args[0] == ssa.Value(fn.Params[0]) {
-						okF = true
+			// a single exit that returns a merged value is judged per merged value, under the condition of its edge
+			for _, lf := range returnLeaves(q, ret) {
+				n++
+				st := lf.st
+				v := lf.v
+				key := fmt.Sprintf("%s:return#%d", e.name, n)
+				if v == ssa.Value(param) {
+					ok1, cex := q.Holds(st, pa.AtomF(blank))
+					R.Check(ok1, rule, key, "(*Policy)."+e.name+": return of the parameter itself", c.P.Pos(ret.Pos()), "only for blank input", "the input is returned unsanitised for non-blank input: ["+cex+"]")
+					continue
+				}
+				// conv(sanitizeWithBuff(p, iface(reader(param))))
+				okF := false
+				why := "returns " + stripIDs(A.Sym.Of(v))
+				if cv := isCallTo(v, e.conv); cv != nil {
+					if sw, ok := cv.Common().Args[0].(*ssa.Call); ok && sw.Common().StaticCallee() == swb {
+						arg := sw.Common().Args[1]
+						if mi, ok := arg.(*ssa.MakeInterface); ok {
+							arg = mi.X
+						}
+						if rd := isCallTo(arg, e.reader); rd != nil && rd.Common().Args[0] == ssa.Value(param) && sw.Common().Args[0] == ssa.Value(fn.Params[0]) {
+							okF = true
+						}
 					}
 				}
+				ok2, cex := q.Holds(st, pa.Not(pa.AtomF(blank)))
+				R.Check(okF && ok2, rule, key, "(*Policy)."+e.name+": sanitising return", c.P.Pos(ret.Pos()), e.conv+"(sanitizeWithBuff("+e.reader+"(param))) for non-blank input", "the entry point transforms its input or output beyond the shared funnel ("+why+"; "+cex+")")
 			}
-			ok2, cex := q.Holds(st, pa.Not(pa.AtomF(blank)))
-			R.Check(okF && ok2, rule, key, "(*Policy)."+e.name+": sanitising return", c.P.Pos(ret.Pos()), e.conv+"(sanitizeWithBuff("+e.reader+"(param))) for non-blank input", "the entry point transforms its input or output beyond the shared funnel ("+why+"; "+cex+")")
 		}
 		R.Role(rule, "returns of "+e.name, n, 2)
 	}
@@ -148,6 +151,15 @@ func c15FunnelRule(c *Ctx, rule string) {
 							for _, ref := range *al.Referrers() {
 								switch ref.(type) {
 								case *ssa.MakeInterface, *ssa.Return, *ssa.DebugRef:
+								case *ssa.Phi:
+									// merged with the empty buffer of the error path on the way to a single return
+									for _, r2 := range *ref.(*ssa.Phi).Referrers() {
+										if _, isRet := r2.(*ssa.Return); !isRet {
+											if _, isDbg := r2.(*ssa.DebugRef); !isDbg {
+												ok, why = false, fmt.Sprintf("the buffer is also used by a %T", r2)
+											}
+										}
+									}
 								default:
 									ok, why = false, fmt.Sprintf("the buffer is also used by a %T", ref)
 								}
@@ -222,6 +234,16 @@ func c15Buffer(c *Ctx) {
 			if ok, _ := readOnlyExt(cal); !ok {
 				bad = "passed to " + calleeStr(x)
 			}
+		case *ssa.Phi:
+			// merged with the sanitised result on the way to a single return
+			uses++
+			for _, r2 := range *x.Referrers() {
+				switch r2.(type) {
+				case *ssa.Return, *ssa.DebugRef:
+				default:
+					bad = fmt.Sprintf("merged into a value used by %T", r2)
+				}
+			}
 		default:
 			uses++
 			bad = fmt.Sprintf("used by %T", ref)
@@ -291,4 +313,31 @@ func c15Adapter(c *Ctx) {
 		ok2, why2 := forwardsWrite(ad)
 		R.Check(ok2, "C15.R3", "adapter", "(*asStringWriter).WriteString", c.P.Pos(ad.Pos()), "Write([]byte(s)) with results forwarded", why2)
 	}
+}
+
+type retLeaf struct {
+	v  ssa.Value
+	st []uint64
+}
+
+// returnLeaves: the values a return can yield, each with the dataflow state under which it is the one returned — the
+// operand itself, or, when it is a φ (a single exit returning a variable), each φ operand with the state on its edge.
+func returnLeaves(q *pa.Query, ret *ssa.Return) []retLeaf {
+	v := ret.Results[0]
+	phi, ok := v.(*ssa.Phi)
+	if !ok {
+		return []retLeaf{{v, q.StateAt(ret)}}
+	}
+	var out []retLeaf
+	for i, e := range phi.Edges {
+		p := phi.Block().Preds[i]
+		var st []uint64
+		for k, s := range p.Succs {
+			if s == phi.Block() {
+				st = q.EdgeState(p, k)
+			}
+		}
+		out = append(out, retLeaf{e, st})
+	}
+	return out
 }
